@@ -5,7 +5,7 @@ open Llir Llir.Resolve
 
 def nsOfLetter : String → Option NS
   | "T" => some .ty | "C" => some .comdat | "G" => some .global | "L" => some .alias | "I" => some .ifunc
-  | "F" => some .func | "A" => some .attrgroup | "N" => some .namedmd | "M" => some .md
+  | "F" => some .func | "A" => some .attrgroup | "N" => some .namedmd | "M" => some .md | "U" => some .uselist
   | _ => none
 
 def words (s : String) : List String := (s.splitOn " ").filter (· ≠ "")
@@ -24,7 +24,8 @@ def parseEnt (s : String) : Option Ent :=
       let refsS := rest.getD 0 ""
       let isOp := refsS == "!opaque"
       let refs := if isOp then [] else (words refsS).filterMap parseRef
-      some { ns := ns, key := key, isOpaque := isOp, refs := refs, ldefs := words (rest.getD 1 ""), lrefs := words (rest.getD 2 "") }
+      let brefs := (words (rest.getD 3 "")).filterMap fun w => match w.splitOn ":" with | [f, l] => some (f, l) | _ => none
+      some { ns := ns, key := key, isOpaque := isOp, refs := refs, ldefs := words (rest.getD 1 ""), lrefs := words (rest.getD 2 ""), brefs := brefs }
   | _ => none
 
 def parseSkel (hex : String) : List Ent :=
